@@ -9,7 +9,7 @@ from ..model import AnalysisError, Func, Program, walk_own
 from ..report import Report
 from ..resolve import const_value, dotted
 from ..util import assigned_value, iter_stores, returns_of, src
-from .cachefam import (CACHES_MOD, CacheFacts, rule_coherence_capacity, rule_invalidation, rule_list_ops, rule_lookup_source, rule_value_stored)
+from .cachefam import (CACHES_MOD, CacheFacts, membership_polarity, rule_coherence_capacity, rule_invalidation, rule_list_ops, rule_lookup_source, rule_value_stored)
 
 
 def run(prog: Program, rep: Report):
@@ -61,10 +61,10 @@ class _IncCount(Client):
 
     def refine(self, test, state, ctx):
         n, present = state
-        if isinstance(test, ast.Compare) and len(test.ops) == 1 and isinstance(test.ops[0], (ast.In, ast.NotIn)) \
-                and isinstance(test.left, ast.Name) and test.left.id == self.key:
+        pol = membership_polarity(self.cf, test, self.key, ctx.func)
+        if pol is not None:
             yes, no = (n, True), (n, False)
-            return ((yes,), (no,)) if isinstance(test.ops[0], ast.In) else ((no,), (yes,))
+            return ((yes,), (no,)) if pol else ((no,), (yes,))
         return (state,), (state,)
 
     def event(self, kind, node, state, ctx):
@@ -86,10 +86,10 @@ class _InitCount(Client):
 
     def refine(self, test, state, ctx):
         present, c = state
-        if isinstance(test, ast.Compare) and len(test.ops) == 1 and isinstance(test.ops[0], (ast.In, ast.NotIn)) \
-                and isinstance(test.left, ast.Name) and test.left.id == self.key:
+        pol = membership_polarity(self.cf, test, self.key, ctx.func)
+        if pol is not None:
             yes, no = (True, c), (False, c)
-            return ((yes,), (no,)) if isinstance(test.ops[0], ast.In) else ((no,), (yes,))
+            return ((yes,), (no,)) if pol else ((no,), (yes,))
         return (state,), (state,)
 
     def event(self, kind, node, state, ctx):
